@@ -289,7 +289,7 @@ def part2(rep, prog, ix):
                 okd = (data == ('ptr', 'heap:cached.icon', ZERO) and st.same(size, ICON_SIZE)) or \
                       (data == ('ptr', 'heap:port.icon_image', ZERO) and st.same(size, ('sym', 'port.icon_image.size', 0, 32768))) or \
                       (data == ZERO and st.dom(('sym', 'rc.get_icon_image', -(1 << 31), (1 << 31) - 1)).contains(0) is False) or \
-                      (data == ZERO and entry_icon_exists(fs, st) is False) or \
+                      (data == ZERO and entry_icon_exists(fs, st) is False and icon_unavailable(st)) or \
                       (data[0] == 'pset' and set(data[2]) <= {ZERO, ('ptr', 'heap:cached.icon', ZERO)} and st.same(size, ICON_SIZE))
                 rep.check(okd, 'R08.5', '%s|icon-data' % region, 'icon request answered from %s / size %s' % (short(data), short(size)), function='parseQueryLargeTlv', file=fnf,
                           sample={'type': 'icon', 'data': short(data), 'size': short(size)} if len(rep.samples) < 20 else None)
@@ -313,6 +313,17 @@ def part2(rep, prog, ix):
             else:
                 rep.fail('R08.5', '%s|type-unchecked' % region, 'a path answers without distinguishing the requested type (%s)' % ty, function='parseQueryLargeTlv', file=fnf)
     rep.analysed['qlt_responses_examined'] = nresp
+
+
+def icon_unavailable(st):
+    """No icon to offer on this path: the platform's getter was asked and failed, or it delivered nothing (no block / 0 bytes)."""
+    got = [e for e, _ in effects(st, 'get') if e[1] == 'icon_image']
+    if not got:
+        return False
+    rc = st.dom(('sym', 'rc.get_icon_image', -(1 << 31), (1 << 31) - 1))
+    if not rc.contains(0):
+        return True
+    return st.dom(('sym', 'port.icon_image.size', 0, 32768)).hi == 0
 
 
 def unchanged_cell_plain(st, k, w, t):
